@@ -1,4 +1,5 @@
 import HabuVerif.Proofs.DslRun
+import HabuVerif.Proofs.F64Lemmas
 /-!
 # Evaluation lemmas for the expression shapes the translated line programs are made of
 -/
@@ -73,5 +74,88 @@ theorem runP_body_ret (ctx : Ctx) (d : LineDecl) (e : Expr) (h : d.body = [.ret 
     runP vs is fs (evalBody ctx d) = runP vs is fs (evalExpr ctx d.defaults e) := by
   simp only [evalBody, h, execBlock, execStmt, runP_bind, runP_pure, POut.bind_pure, Flow.result]
   cases runP vs is fs (evalExpr ctx d.defaults e) <;> rfl
+
+
+/-- `qual` only looks at the form name and instance -/
+def qual' (form : String) (inst : Option String) (k : String) : String :=
+  if k.toList.contains '.' then k else formName form inst ++ "." ++ k
+
+theorem qual_eq (ctx : Ctx) (k : String) : qual ctx k = qual' ctx.form ctx.inst k := rfl
+
+theorem applyBin_sub_float (a b : F64) :
+    applyBin .sub (.float a) (.float b) = .ok (.float (F64.sub a b)) := rfl
+theorem applyBin_add_float (a b : F64) :
+    applyBin .add (.float a) (.float b) = .ok (.float (F64.add a b)) := rfl
+
+/-- the three-way comparison of two non-nan doubles -/
+theorem cmpNum_float (a b : F64) (ha : a.isNaN = false) (hb : b.isNaN = false) :
+    Val.cmpNum (.f a) (.f b) =
+      some (if F64.lt a b then .lt else if F64.lt b a then .gt else .eq) := by
+  simp only [Val.cmpNum]
+  by_cases h1 : F64.lt a b = true
+  · simp [h1]
+  · by_cases h2 : F64.lt b a = true
+    · simp [h1, h2]
+    · have e : F64.eq a b = true := by
+        rw [F64.lt_eq_not_le ha hb] at h1
+        rw [F64.lt_eq_not_le hb ha] at h2
+        exact F64.le_antisymm (by simpa using h2) (by simpa using h1)
+      simp [h1, h2, e]
+
+theorem lt_asymm' {a b : F64} (ha : a.isNaN = false) (hb : b.isNaN = false)
+    (h : F64.lt a b = true) : F64.lt b a = false := by
+  rw [F64.lt_eq_not_le hb ha]
+  simp [F64.le_of_lt h]
+
+theorem applyCmp_gt_float (a b : F64) (ha : a.isNaN = false) (hb : b.isNaN = false) :
+    applyCmp .gt (.float a) (.float b) = .ok (F64.lt b a) := by
+  simp only [applyCmp, Val.ordCmp, Val.num?, cmpNum_float a b ha hb]
+  by_cases h1 : F64.lt a b = true
+  · simp [h1, lt_asymm' ha hb h1, Val.OrdOp.holds]
+  · by_cases h2 : F64.lt b a = true <;> simp [h1, h2, Val.OrdOp.holds]
+
+theorem applyCmp_lt_float (a b : F64) (ha : a.isNaN = false) (hb : b.isNaN = false) :
+    applyCmp .lt (.float a) (.float b) = .ok (F64.lt a b) := by
+  simp only [applyCmp, Val.ordCmp, Val.num?, cmpNum_float a b ha hb]
+  by_cases h1 : F64.lt a b = true
+  · simp [h1, Val.OrdOp.holds]
+  · by_cases h2 : F64.lt b a = true <;> simp [h1, h2, Val.OrdOp.holds]
+
+theorem applyCmp_ge_float (a b : F64) (ha : a.isNaN = false) (hb : b.isNaN = false) :
+    applyCmp .ge (.float a) (.float b) = .ok (!F64.lt a b) := by
+  simp only [applyCmp, Val.ordCmp, Val.num?, cmpNum_float a b ha hb]
+  by_cases h1 : F64.lt a b = true
+  · simp [h1, Val.OrdOp.holds]
+  · by_cases h2 : F64.lt b a = true <;> simp [h1, h2, Val.OrdOp.holds]
+
+theorem applyCmp_le_float (a b : F64) (ha : a.isNaN = false) (hb : b.isNaN = false) :
+    applyCmp .le (.float a) (.float b) = .ok (!F64.lt b a) := by
+  simp only [applyCmp, Val.ordCmp, Val.num?, cmpNum_float a b ha hb]
+  by_cases h1 : F64.lt a b = true
+  · simp [h1, lt_asymm' ha hb h1, Val.OrdOp.holds]
+  · by_cases h2 : F64.lt b a = true <;> simp [h1, h2, Val.OrdOp.holds]
+
+theorem wrap_float (p : Nat) (x : F64) :
+    FieldKind.wrap (.float p) (.float x) = .inl (.float (F64.roundN x p)) := rfl
+theorem wrap_float_none (p : Nat) :
+    FieldKind.wrap (.float p) .none = .inl (.float (F64.roundN F64.zero p)) := rfl
+
+/-- whatever a money line stores is a double rounded to its places -/
+theorem wrap_float_out (p : Nat) (v w : Val) (h : FieldKind.wrap (.float p) v = .inl w) :
+    ∃ x, w = .float (F64.roundN x p) := by
+  unfold FieldKind.wrap at h
+  cases v with
+  | none => simp [FieldKind.empty] at h; exact ⟨_, h.symm⟩
+  | float x => simp at h; exact ⟨_, h.symm⟩
+  | str s =>
+    by_cases hb : (Val.pyStrip s).isEmpty = true
+    · simp [hb, FieldKind.empty] at h; exact ⟨_, h.symm⟩
+    · simp [hb] at h
+  | bool b => simp at h
+  | int i => simp at h
+  | enumv e m => simp at h
+  | tuple xs => simp at h
+  | list xs => simp at h
+  | dict ks vs => simp at h
 
 end HabuVerif.Dsl
